@@ -6,7 +6,7 @@ from ..core import AnalysisError, u, walk_local, enclosing_stmt
 from ..lib import (construct, std_facts, def_of, copy_kind, at_least, facts_at,
                    facts_imply, calls_of_node, in_subtree)
 from .wrapper import WrapperModel
-from .common import allowed_stores, fresh_kwarg_defaults
+from .common import allowed_stores, fresh_kwarg_defaults, signature_agreement
 
 
 def run(ctx):
@@ -206,3 +206,6 @@ def run(ctx):
               'raises KeyError' % u(sub), cs.loc(sub), instance=u(sub))
   if not subs:
     ctx.hold('C07.present', construct(cs), 'no constant-key subscript on a record entry', cs.loc())
+  from .c06 import roundtrip_guard
+  roundtrip_guard(ctx, 'C07.defaults')
+  signature_agreement(ctx, 'C07.defaults')
